@@ -2219,8 +2219,9 @@ def k_derive_attributes(R, max_entries):
 
 # ---------------------------------------------------------------- calculate_selection on abstract types (C01, C03, C09, C12)
 
-def k_abstract_selection(R, S):
-    """codegen::selection::render_fragment for a fragment F0 on an interface / union with S selections of symbolic kind
+def k_abstract_selection(R, S, recursive_f1=False):
+    """(`recursive_f1`: the fragment F1 spreads itself through a field - every embedding of F1 must then be boxed, C12)
+    codegen::selection::render_fragment for a fragment F0 on an interface / union with S selections of symbolic kind
     (`__typename`, leaf field, inline fragment on an object, spread of F1 / F2 whose type conditions are symbolic).
     Claims: the `__typename`-tagged variants are exactly the possible object types, named by their schema names,
     plus `Unknown` iff fragments_other_variant; every selection that targets an object ends up in that object's variant."""
@@ -2288,19 +2289,28 @@ def k_abstract_selection(R, S):
             top.append(sid(me))
         frags = [B.struct('ResolvedFragment', name=StrV('F0'), on=parent_ty, selection_set=VecV(top))]
         for k in range(2):
-            frags.append(B.struct('ResolvedFragment', name=StrV(f'F{k + 1}'), on=obj_or_parent(fr_on[k]), selection_set=VecV(())))
+            own = VecV(())
+            if recursive_f1 and k == 0:
+                # F1 { leaf-field { ...F1 } }: two more selections at the end of the arena
+                a_ = len(selections)
+                selections.append(B.variant('Selection', 'Field', B.struct('SelectedField', alias=none(), field_id=B.newtype('StoredFieldId', bv(0, 64)), selection_set=VecV([sid(a_ + 1)]))))
+                parents.append((sid(a_), B.variant('SelectionParent', 'Fragment', B.newtype('ResolvedFragmentId', bv(1, 32)))))
+                selections.append(B.variant('Selection', 'FragmentSpread', B.newtype('ResolvedFragmentId', bv(1, 32))))
+                parents.append((sid(a_ + 1), B.variant('SelectionParent', 'Field', sid(a_))))
+                own = VecV([sid(a_)])
+            frags.append(B.struct('ResolvedFragment', name=StrV(f'F{k + 1}'), on=obj_or_parent(fr_on[k]), selection_set=own))
         q = B.struct('Query', fragments=VecV(frags), operations=VecV(()), selection_parent_idx=B.btreemap(parents), selections=VecV(selections), variables=VecV(()))
         bq = B.cell(B.struct('BoundQuery', query=B.cell(q), schema=B.cell(schema)))
         opts = B.cell(options_value(B, fragments_other_variant=other, normalization=SymEnum(norm, {i: () for i in range(len(norms))})))
         R.vm.push_call(st, f, [B.newtype('ResolvedFragmentId', bv(0, 32)), opts, bq], None, None)
     all_outs = []
-    for members in ([True, True], [True, False], [False, True]):
+    for members in (([True, True],) if recursive_f1 else ([True, True], [True, False], [False, True])):
         holder['members'] = members
-        outs_m, _ = R.explore(f'render_fragment on abstract type ({S} selections)', setup)
+        outs_m, _ = R.explore(f'render_fragment on abstract type ({S} selections{", F1 recursive" if recursive_f1 else ""})', setup)
         all_outs += [(o_, holder['sv']) for o_ in outs_m]
     ES = R.L.structs.get('ExpandedSelection')
     EV, EF, TA = R.L.structs.get('ExpandedVariant'), R.L.structs.get('ExpandedField'), R.L.structs.get('TypeAlias')
-    menv = dict(norm=norm, norms=norms, sk=sk, st_obj=st_obj, st_fr=st_fr, fr_on=fr_on, pkind=pkind, other=other, S=S, i_field=i_field, i_inline=i_inline, i_spread=i_spread, i_typename=i_typename)
+    menv = dict(recursive_f1=recursive_f1, norm=norm, norms=norms, sk=sk, st_obj=st_obj, st_fr=st_fr, fr_on=fr_on, pkind=pkind, other=other, S=S, i_field=i_field, i_inline=i_inline, i_spread=i_spread, i_typename=i_typename)
     for o, sv in all_outs:
         if o.kind != 'return':
             if o.kind == 'panic':
@@ -2359,6 +2369,15 @@ def k_abstract_selection(R, S):
                 fl = [x for x in fields if z3.is_true(simp(x.fields[EF.index('struct_id')].fields[0] == bv(sid_, 32)))]
                 n_flat = sum(1 for x in fl if z3.is_true(simp(x.fields[EF.index('flatten')])))
                 n_plain = len(fl) - n_flat
+                if recursive_f1:
+                    # every embedding of the recursive fragment F1 is boxed, and nothing else is
+                    for x in fl:
+                        if z3.is_true(simp(x.fields[EF.index('flatten')])):
+                            is_f1 = sname(x.fields[EF.index('field_type')]).s == 'F1'
+                            claims[f'C12:O{ob}-flattened-{sname(x.fields[EF.index("field_type")]).s}-boxed-iff-recursive'] = x.fields[EF.index('boxed')] == z3.BoolVal(is_f1)
+                    for a in al:
+                        is_f1 = sname(a.fields[TA.index('name')]).s == 'F1'
+                        claims[f'C12:O{ob}-alias-{sname(a.fields[TA.index("name")]).s}-boxed-iff-recursive'] = a.fields[TA.index('boxed')] == z3.BoolVal(is_f1)
                 if al:
                     # aliasing the variant to one fragment is only right when that spread is the whole selection on the object
                     claims[f'C01:O{ob}-alias-only-for-single-spread'] = z3.Implies(poss[ob], z3.And(n_spread == 1, n_inline == 0))
@@ -2570,7 +2589,7 @@ def abstract_model(m, env):
     on = lambda c: ['O0', 'O1', 'PARENT'][ev(c).as_long()]
     return dict(parent='interface' if ev(env['pkind']).as_long() == 2 else 'union', selections=sels, F1_on=on(env['fr_on'][0]), F2_on=on(env['fr_on'][1]),
                 implements=[z3.is_true(ev(x)) for x in env['sv']['impl']], members=[z3.is_true(ev(x)) for x in env['sv']['memb']],
-                fragments_other_variant=z3.is_true(ev(env['other'])), obj_names=list(ABSTRACT_OBJ_NAMES),
+                fragments_other_variant=z3.is_true(ev(env['other'])), obj_names=list(ABSTRACT_OBJ_NAMES), recursive_f1=bool(env.get('recursive_f1')),
                 normalization=env['norms'][ev(env['norm']).as_long()] if 'norm' in env else 'None')
 
 
